@@ -42,6 +42,7 @@ VARIABLES
   ins,             \* [Node -> Seq(Node)]  node.in (a slice: duplicates possible, walked in order)
   hInv,            \* [Node -> RR \cup {None}]  afterInvalidate = "rerun r"
   cleanups,        \* [Node -> Nat]  how often the Cleanup callback of a resource ran
+  hasCb,           \* [Node -> BOOLEAN]  afterRelease set (Resource.Cleanup was called)
   tracker,         \* [FSlots -> SUBSET Node]  per-run resources currently registered for a slot
   cache,           \* [RR -> [Keys -> Node \cup {None}]]
   tasks,           \* bag of goroutine stacks: [stack -> count]
@@ -55,10 +56,10 @@ VARIABLES
   running,         \* [RR -> Nat]  compute functions currently executing
   runs,            \* [RR -> Nat]  compute functions started (history)
   bumps, fails
-vars == <<inv, rel, out, ins, hInv, cleanups, tracker, cache, tasks, rmu, comp, stop, cancelled,
+vars == <<inv, rel, out, ins, hInv, cleanups, hasCb, tracker, cache, tasks, rmu, comp, stop, cancelled,
           stopStarted, stopReturned, failed, version, val, used, running, runs, bumps, fails>>
 
-gvars == <<inv, rel, out, ins, hInv, cleanups, tracker>>               \* graph
+gvars == <<inv, rel, out, ins, hInv, cleanups, hasCb, tracker>>               \* graph
 rvars == <<cache, rmu, comp, stop, cancelled, stopStarted, stopReturned, failed, running, runs, fails>>  \* rerunner
 evars == <<version, val, used, bumps>>                                  \* environment / ghost
 
@@ -93,6 +94,7 @@ Init ==
   /\ inv = [n \in Node |-> FALSE] /\ rel = [n \in Node |-> FALSE]
   /\ out = [n \in Node |-> {}] /\ ins = [n \in Node |-> <<>>]
   /\ hInv = [n \in Node |-> None] /\ cleanups = [n \in Node |-> 0]
+  /\ hasCb = [n \in Node |-> n \in Res]       \* the owner of a long-lived resource registers Cleanup up front
   /\ tracker = [s \in FSlots |-> {}]
   /\ cache = [r \in RR |-> [k \in Keys |-> None]]
   /\ tasks = BAddAll(EmptyBag, [i \in 1..Cardinality(RR) |-> <<FWait((CHOOSE f \in Perms(RR) : TRUE)[i])>>])
@@ -115,7 +117,7 @@ InvMark(st) ==
      IF inv[n] THEN /\ Upd(st, Tail(st), <<>>) /\ UNCHANGED inv
      ELSE /\ inv' = [inv EXCEPT ![n] = TRUE]
           /\ Upd(st, <<Fr("invh", n, None, None, out[n], <<>>, None)>> \o Tail(st), <<>>)
-  /\ UNCHANGED <<rel, out, ins, hInv, cleanups, tracker>> /\ UNCHANGED rvars /\ UNCHANGED evars
+  /\ UNCHANGED <<rel, out, ins, hInv, cleanups, hasCb, tracker>> /\ UNCHANGED rvars /\ UNCHANGED evars
 
 \* afterInvalidate is read OUTSIDE the node lock; then the snapshot of out is invalidated recursively
 InvHandler(st) ==
@@ -136,16 +138,24 @@ StrobeSnap(st) ==
        Upd(st, [i \in DOMAIN order |-> FInv(order[i])] \o Tail(st), <<>>)
   /\ UNCHANGED gvars /\ UNCHANGED rvars /\ UNCHANGED evars
 
-\* node.release() after its invalidate(): mark released, run afterRelease (the Cleanup callback)
+\* node.release() after its invalidate(): mark released under the node lock
+ReluFrames(n) == IF ins[n] = <<>> THEN <<>> ELSE <<Fr("relu", n, None, None, {}, ins[n], None)>>
 RelMark(st) ==
   /\ Top(st).k = "rel2"
   /\ LET n == Top(st).n IN
-     IF rel[n] THEN /\ Upd(st, Tail(st), <<>>) /\ UNCHANGED <<rel, cleanups, tracker>>
+     IF rel[n] THEN /\ Upd(st, Tail(st), <<>>) /\ UNCHANGED rel
      ELSE /\ rel' = [rel EXCEPT ![n] = TRUE]
-          /\ cleanups' = [cleanups EXCEPT ![n] = @ + 1]
-          /\ tracker' = [s \in FSlots |-> tracker[s] \ {n}]          \* the callback un-registers a per-run resource
-          /\ Upd(st, (IF ins[n] = <<>> THEN <<>> ELSE <<Fr("relu", n, None, None, {}, ins[n], None)>>) \o Tail(st), <<>>)
-  /\ UNCHANGED <<inv, out, ins, hInv>> /\ UNCHANGED rvars /\ UNCHANGED evars
+          /\ Upd(st, (IF hasCb[n] THEN <<Fr("relcb", n, None, None, {}, <<>>, None)>> ELSE ReluFrames(n)) \o Tail(st), <<>>)
+  /\ UNCHANGED <<inv, out, ins, hInv, cleanups, hasCb, tracker>> /\ UNCHANGED rvars /\ UNCHANGED evars
+
+\* afterRelease(): the Cleanup callback runs outside the lock; it un-registers a per-run resource
+RelCallback(st) ==
+  /\ Top(st).k = "relcb"
+  /\ LET n == Top(st).n IN
+     /\ cleanups' = [cleanups EXCEPT ![n] = @ + 1]
+     /\ tracker' = [s \in FSlots |-> tracker[s] \ {n}]
+     /\ Upd(st, ReluFrames(n) \o Tail(st), <<>>)
+  /\ UNCHANGED <<inv, rel, out, ins, hInv, hasCb>> /\ UNCHANGED rvars /\ UNCHANGED evars
 
 \* for _, from := range n.in { lock from; delete(from.out, n); shouldRelease := len(from.out) == 0; unlock }
 RelUnlink(st) ==
@@ -157,7 +167,7 @@ RelUnlink(st) ==
          rest == IF more = <<>> THEN <<>> ELSE <<Fr("relu", n, None, None, {}, more, None)>> IN
      /\ out' = [out EXCEPT ![from] = o2]
      /\ Upd(st, (IF o2 = {} THEN FRel(from) ELSE <<>>) \o rest \o Tail(st), <<>>)
-  /\ UNCHANGED <<inv, rel, ins, hInv, cleanups, tracker>> /\ UNCHANGED rvars /\ UNCHANGED evars
+  /\ UNCHANGED <<inv, rel, ins, hInv, cleanups, hasCb, tracker>> /\ UNCHANGED rvars /\ UNCHANGED evars
 
 \* n.addOut(to), atomic under both node locks.  Result: new out, new ins, goroutines to spawn.
 AddOutOut(n, to) == IF ~rel[to] THEN [out EXCEPT ![n] = @ \cup {to}] ELSE out
@@ -176,21 +186,39 @@ RunWait(st) ==
      ELSE Upd(st, <<Fr("lock", None, r, None, {}, <<>>, None)>> \o Tail(st), <<>>)
   /\ UNCHANGED gvars /\ UNCHANGED rvars /\ UNCHANGED evars
 
-\* r.mu.Lock(); if r.stop return; cleanInvalidated(); start the compute function on a new computation
+\* r.mu.Lock(); if r.stop { return }
 RunLock(st) ==
   /\ Top(st).k = "lock"
   /\ LET r == Top(st).r IN
      /\ ~rmu[r]
-     /\ IF stop[r] THEN /\ Upd(st, Tail(st), <<>>) /\ UNCHANGED <<rmu, cache, running, runs, used, val>>
-        ELSE \E c \in NextFree :
-             /\ rmu' = [rmu EXCEPT ![r] = TRUE]
-             /\ cache' = [cache EXCEPT ![r] = [k \in Keys |-> IF @[k] # None /\ inv[@[k]] THEN None ELSE @[k]]]
-             /\ running' = [running EXCEPT ![r] = @ + 1]
-             /\ runs' = [runs EXCEPT ![r] = @ + 1]
-             /\ used' = used \cup {c}
-             /\ val' = [val EXCEPT ![c] = {}]
-             /\ Upd(st, <<Fr("body", None, r, c, {}, Prog[r], None)>> \o Tail(st), <<>>)
-  /\ UNCHANGED gvars /\ UNCHANGED <<comp, stop, cancelled, stopStarted, stopReturned, failed, fails, version, bumps>>
+     /\ IF stop[r] THEN /\ Upd(st, Tail(st), <<>>) /\ UNCHANGED rmu
+        ELSE /\ rmu' = [rmu EXCEPT ![r] = TRUE]
+             /\ Upd(st, <<[Top(st) EXCEPT !.k = "clean", !.s = {k \in Keys : cache[r][k] # None}]>> \o Tail(st), <<>>)
+  /\ UNCHANGED gvars /\ UNCHANGED evars
+  /\ UNCHANGED <<cache, comp, stop, cancelled, stopStarted, stopReturned, failed, running, runs, fails>>
+
+\* cache.cleanInvalidated(): every cached computation is looked at once (each look is its own
+\* critical section on that node), invalidated ones are dropped
+RunCleanKey(st, key) ==
+  /\ Top(st).k = "clean" /\ key \in Top(st).s
+  /\ LET r == Top(st).r IN
+     /\ cache' = [cache EXCEPT ![r][key] = IF inv[@] THEN None ELSE @]
+     /\ Upd(st, <<[Top(st) EXCEPT !.s = @ \ {key}]>> \o Tail(st), <<>>)
+  /\ UNCHANGED gvars /\ UNCHANGED evars
+  /\ UNCHANGED <<rmu, comp, stop, cancelled, stopStarted, stopReturned, failed, running, runs, fails>>
+
+\* then the compute function starts on a new computation c
+RunClean(st, c) ==
+  /\ Top(st).k = "clean" /\ Top(st).s = {}
+  /\ c \in DynSet \ used
+  /\ LET r == Top(st).r IN
+     /\ UNCHANGED cache
+     /\ running' = [running EXCEPT ![r] = @ + 1]
+     /\ runs' = [runs EXCEPT ![r] = @ + 1]
+     /\ used' = used \cup {c}
+     /\ val' = [val EXCEPT ![c] = {}]
+     /\ Upd(st, <<Fr("body", None, r, c, {}, Prog[r], None)>> \o Tail(st), <<>>)
+  /\ UNCHANGED gvars /\ UNCHANGED <<rmu, comp, stop, cancelled, stopStarted, stopReturned, failed, fails, version, bumps>>
 
 \* one step of a compute function (top level: key = None; behind a cache key otherwise)
 BodyDep(st) ==
@@ -198,17 +226,26 @@ BodyDep(st) ==
   /\ LET f == Top(st)  n == Head(f.todo).x IN
      /\ out' = AddOutOut(n, f.c) /\ ins' = AddOutIns(n, f.c)
      /\ Upd(st, <<[f EXCEPT !.k = "read", !.n = n, !.todo = Tail(f.todo)]>> \o Tail(st), AddOutSpawn(n, f.c))
-  /\ UNCHANGED <<inv, rel, hInv, cleanups, tracker>> /\ UNCHANGED rvars /\ UNCHANGED evars
+  /\ UNCHANGED <<inv, rel, hInv, cleanups, hasCb, tracker>> /\ UNCHANGED rvars /\ UNCHANGED evars
 
-BodyFresh(st) ==
+\* r := NewResource(); r.Cleanup(untrack); AddDependency(ctx, r) ...
+BodyFresh(st, n) ==
   /\ Top(st).k = "body" /\ Top(st).todo # <<>> /\ Head(Top(st).todo).op = "fresh"
+  /\ n \in DynSet \ used
   /\ LET f == Top(st)  s == Head(f.todo).x IN
-     \E n \in NextFree :
-       /\ used' = used \cup {n}
-       /\ out' = AddOutOut(n, f.c) /\ ins' = AddOutIns(n, f.c)
-       /\ tracker' = [tracker EXCEPT ![s] = @ \cup {n}]
-       /\ Upd(st, <<[f EXCEPT !.k = "read", !.n = s, !.todo = Tail(f.todo)]>> \o Tail(st), AddOutSpawn(n, f.c))
-  /\ UNCHANGED <<inv, rel, hInv, cleanups>> /\ UNCHANGED rvars /\ UNCHANGED <<version, val, bumps>>
+     /\ used' = used \cup {n}
+     /\ hasCb' = [hasCb EXCEPT ![n] = TRUE]
+     /\ out' = AddOutOut(n, f.c) /\ ins' = AddOutIns(n, f.c)
+     /\ Upd(st, <<[f EXCEPT !.k = "track", !.n = n]>> \o Tail(st), AddOutSpawn(n, f.c))
+  /\ UNCHANGED <<inv, rel, hInv, cleanups, tracker>> /\ UNCHANGED rvars /\ UNCHANGED <<version, val, bumps>>
+
+\* ... then the resource is registered with whoever invalidates it when the data changes
+BodyTrack(st) ==
+  /\ Top(st).k = "track"
+  /\ LET f == Top(st)  s == Head(f.todo).x IN
+     /\ tracker' = [tracker EXCEPT ![s] = @ \cup {f.n}]
+     /\ Upd(st, <<[f EXCEPT !.k = "read", !.n = s, !.todo = Tail(f.todo)]>> \o Tail(st), <<>>)
+  /\ UNCHANGED <<inv, rel, out, ins, hInv, cleanups, hasCb>> /\ UNCHANGED rvars /\ UNCHANGED evars
 
 \* the compute function reads the data AFTER registering the dependency
 BodyRead(st) ==
@@ -226,17 +263,17 @@ CacheHit(st) ==
      /\ out' = AddOutOut(child, f.c) /\ ins' = AddOutIns(child, f.c)
      /\ val' = [val EXCEPT ![f.c] = @ \cup val[child]]
      /\ Upd(st, <<[f EXCEPT !.todo = Tail(f.todo)]>> \o Tail(st), AddOutSpawn(child, f.c))
-  /\ UNCHANGED <<inv, rel, hInv, cleanups, tracker>> /\ UNCHANGED rvars /\ UNCHANGED <<version, used, bumps>>
+  /\ UNCHANGED <<inv, rel, hInv, cleanups, hasCb, tracker>> /\ UNCHANGED rvars /\ UNCHANGED <<version, used, bumps>>
 
 \* miss: run f on a new child computation
-CacheMiss(st) ==
+CacheMiss(st, c) ==
   /\ Top(st).k = "body" /\ Top(st).todo # <<>> /\ Head(Top(st).todo).op = "cache"
+  /\ c \in DynSet \ used
   /\ LET f == Top(st)  key == Head(f.todo).x IN
      /\ cache[f.r][key] = None
-     /\ \E c \in NextFree :
-          /\ used' = used \cup {c}
-          /\ val' = [val EXCEPT ![c] = {}]
-          /\ Upd(st, <<Fr("body", None, f.r, c, {}, Body[key], key), [f EXCEPT !.todo = Tail(f.todo)]>> \o Tail(st), <<>>)
+     /\ used' = used \cup {c}
+     /\ val' = [val EXCEPT ![c] = {}]
+     /\ Upd(st, <<Fr("body", None, f.r, c, {}, Body[key], key), [f EXCEPT !.todo = Tail(f.todo)]>> \o Tail(st), <<>>)
   /\ UNCHANGED gvars /\ UNCHANGED rvars /\ UNCHANGED <<version, bumps>>
 
 \* f returned: cache.set(key, child) (only if absent), child.addOut(parent)
@@ -247,7 +284,7 @@ ChildDone(st) ==
      /\ out' = AddOutOut(f.c, parent.c) /\ ins' = AddOutIns(f.c, parent.c)
      /\ val' = [val EXCEPT ![parent.c] = @ \cup val[f.c]]
      /\ Upd(st, Tail(st), AddOutSpawn(f.c, parent.c))
-  /\ UNCHANGED <<inv, rel, hInv, cleanups, tracker>>
+  /\ UNCHANGED <<inv, rel, hInv, cleanups, hasCb, tracker>>
   /\ UNCHANGED <<rmu, comp, stop, cancelled, stopStarted, stopReturned, failed, running, runs, fails, version, used, bumps>>
 
 BodyPurge(st) ==
@@ -275,23 +312,35 @@ RunArm(st) ==
      /\ IF inv[f.c] THEN /\ Upd(st, Tail(st), << <<FWait(f.r)>> >>) /\ UNCHANGED hInv      \* go f()
         ELSE /\ hInv' = [hInv EXCEPT ![f.c] = f.r] /\ Upd(st, Tail(st), <<>>)
      /\ rmu' = [rmu EXCEPT ![f.r] = FALSE]
-  /\ UNCHANGED <<inv, rel, out, ins, cleanups, tracker>> /\ UNCHANGED evars
+  /\ UNCHANGED <<inv, rel, out, ins, cleanups, hasCb, tracker>> /\ UNCHANGED evars
   /\ UNCHANGED <<cache, comp, stop, cancelled, stopStarted, stopReturned, failed, running, runs, fails>>
 
-\* the compute function returned an error: the new computation is released; a sentinel error
-\* purges the cache and schedules a retry, any other error stops the rerunner for good
-RunFail(st, retry) ==
-  /\ Top(st).k = "body" /\ Top(st).todo = <<>> /\ Top(st).key = None
-  /\ fails < MaxFail
+\* the compute function returns an error: run() releases the new computation right away ...
+\*   mode "retry" / "fatal": the function itself fails (bounded by MaxFail);
+\*   mode "ctx": reactive.Cache takes its per-key lock with the run's context, so once Stop has
+\*   cancelled it the call may return ctx.Err(), a non-sentinel error
+CompFail(st, mode) ==
+  /\ Top(st).k = "body" /\ Top(st).key = None
   /\ LET f == Top(st) IN
-     /\ fails' = fails + 1
+     /\ IF mode = "ctx"
+        THEN f.todo # <<>> /\ Head(f.todo).op = "cache" /\ cancelled[f.r] /\ UNCHANGED fails
+        ELSE f.todo = <<>> /\ fails < MaxFail /\ fails' = fails + 1
+     /\ Upd(st, <<[f EXCEPT !.k = "failed", !.n = mode]>> \o Tail(st), <<FRel(f.c)>>)
+  /\ UNCHANGED gvars /\ UNCHANGED evars
+  /\ UNCHANGED <<cache, rmu, comp, stop, cancelled, stopStarted, stopReturned, failed, running, runs>>
+
+\* ... then Rerunner.run: a sentinel error purges the cache and schedules a retry, any other
+\* error stops the rerunner for good; r.mu is released
+RunFail(st) ==
+  /\ Top(st).k = "failed"
+  /\ LET f == Top(st)  retry == f.n = "retry" IN
      /\ running' = [running EXCEPT ![f.r] = @ - 1]
      /\ rmu' = [rmu EXCEPT ![f.r] = FALSE]
      /\ IF retry THEN /\ cache' = [cache EXCEPT ![f.r] = [k \in Keys |-> None]] /\ UNCHANGED failed
         ELSE /\ failed' = [failed EXCEPT ![f.r] = TRUE] /\ UNCHANGED cache
-     /\ Upd(st, Tail(st), <<FRel(f.c)>> \o (IF retry THEN << <<FWait(f.r)>> >> ELSE <<>>))
+     /\ Upd(st, Tail(st), IF retry THEN << <<FWait(f.r)>> >> ELSE <<>>)
   /\ UNCHANGED gvars /\ UNCHANGED evars
-  /\ UNCHANGED <<comp, stop, cancelled, stopStarted, stopReturned, runs>>
+  /\ UNCHANGED <<comp, stop, cancelled, stopStarted, stopReturned, runs, fails>>
 
 \* Rerunner.Stop(): cancelCtx() ...
 StopCancel(st) ==
@@ -333,10 +382,11 @@ StartStop(r) ==
   /\ UNCHANGED gvars /\ UNCHANGED evars
   /\ UNCHANGED <<cache, rmu, comp, stop, cancelled, stopReturned, failed, running, runs, fails>>
 
-Step(st) == \/ InvMark(st) \/ InvHandler(st) \/ StrobeSnap(st) \/ RelMark(st) \/ RelUnlink(st)
-            \/ RunWait(st) \/ RunLock(st) \/ BodyDep(st) \/ BodyFresh(st) \/ BodyRead(st)
-            \/ CacheHit(st) \/ CacheMiss(st) \/ ChildDone(st) \/ BodyPurge(st)
-            \/ RunDone(st) \/ RunArm(st) \/ RunFail(st, TRUE) \/ RunFail(st, FALSE)
+Step(st) == \/ InvMark(st) \/ InvHandler(st) \/ StrobeSnap(st) \/ RelMark(st) \/ RelCallback(st) \/ RelUnlink(st)
+            \/ RunWait(st) \/ RunLock(st) \/ (\E k \in Keys : RunCleanKey(st, k)) \/ (\E c \in NextFree : RunClean(st, c))
+            \/ BodyDep(st) \/ (\E n \in NextFree : BodyFresh(st, n)) \/ BodyTrack(st) \/ BodyRead(st)
+            \/ CacheHit(st) \/ (\E c \in NextFree : CacheMiss(st, c)) \/ ChildDone(st) \/ BodyPurge(st)
+            \/ RunDone(st) \/ RunArm(st) \/ (\E m \in {"retry", "fatal", "ctx"} : CompFail(st, m)) \/ RunFail(st)
             \/ StopCancel(st) \/ StopLock(st)
 
 Idle == DOMAIN tasks = {}
@@ -355,7 +405,7 @@ TaskBound == BSize(tasks) <= MaxTasks        \* used as a state constraint witne
 \* C04: runs of one rerunner never overlap
 NoOverlap == \A r \in RR : running[r] <= 1
 
-InCompute(r) == \E st \in DOMAIN tasks : \E i \in DOMAIN st : st[i].r = r /\ st[i].k \in {"body", "read", "arm"}
+InCompute(r) == \E st \in DOMAIN tasks : \E i \in DOMAIN st : st[i].k \in {"clean", "body", "track", "read", "arm", "failed"} /\ st[i].r = r
 \* C04: once Stop has returned no run is in progress ...
 StopFinal == \A r \in RR : stopReturned[r] => running[r] = 0 /\ ~InCompute(r)
 \* ... and none ever starts
@@ -377,7 +427,7 @@ Registered(n) == \E c \in Node : \E i \in DOMAIN ins[c] : ins[c][i] = n      \* 
 CleanupAtMostOnce == \A n \in Node : cleanups[n] <= 1
 NoCleanupWhileLive == \A n \in Node : cleanups[n] >= 1 => n \notin LiveNodes
 CleanupExactlyOnceAtQuiescence ==
-  Idle => \A n \in Node : (Registered(n) \/ rel[n]) => ((cleanups[n] = 1) <=> (n \notin LiveNodes))
+  Idle => \A n \in Node : hasCb[n] /\ (Registered(n) \/ rel[n]) => ((cleanups[n] = 1) <=> (n \notin LiveNodes))
 \* a per-run resource stays tracked exactly as long as it has not been cleaned up
 TrackerExact == Idle => \A s \in FSlots : \A n \in tracker[s] : ~rel[n]
 
